@@ -31,6 +31,10 @@ ALLOWED_AXIOMS = {
 }
 
 
+# primitive 63-bit integers / floats of the standard library (used by Interval's emulated floats): declared by Coq's stdlib, not by us
+STDLIB_PRIMITIVE_PREFIXES = ('Uint63.', 'PrimInt63.', 'PrimFloat.', 'FloatAxioms.', 'Sint63.')
+
+
 # ------------------------------------------------------------------ numbers -> Coq text
 def frac(x):
     """exact rational value of a Python/NumPy number"""
@@ -358,7 +362,7 @@ class Report:
         for thm, axs in res.items():
             for a in axs:
                 self.axioms.add(a)
-                if a not in ALLOWED_AXIOMS:
+                if a not in ALLOWED_AXIOMS and not a.startswith(STDLIB_PRIMITIVE_PREFIXES):
                     bad.setdefault(thm, []).append(a)
         if bad:
             self.unchecked('axioms:%s' % prop_file, 'theorems depend on non-standard axioms: %r' % bad)
